@@ -1396,6 +1396,7 @@ func siC14(r *siReport) {
 			}
 		}
 	}
+	try("selfptr/field-of-self-pointing-type", []byte{0x43, 0x01, 0x51, 0x91, 0x01, 0x66, 0x60, 0x90}, map[string]reflect.Type{"Q": reflect.TypeOf(ZSelfPtrHolder{})})
 	// a list referenced many times into fields of another slice type: the work must not be (elements x references)
 	{
 		in := []byte{0x57, 0x58, 'I', 0, 0, 0x0b, 0xb8}
@@ -1517,6 +1518,11 @@ type ZMutB struct {
 	L [][]ZInner
 }
 
+type ZNestList []ZNestList
+type ZNestMap map[string]ZNestMap
+type ZSelfPtr *ZSelfPtr
+type ZSelfPtrHolder struct{ F ZSelfPtr }
+
 func siC16(r *siReport) {
 	witnesses := map[string][]interface{}{
 		"ZRec":       {&ZRec{}, &ZRec{V: 1, Next: &ZRec{V: 2}, Kids: []*ZRec{{V: 3}}, M: map[string]*ZRec{"k": {V: 4}}}},
@@ -1585,7 +1591,18 @@ func siC16(r *siReport) {
 			r.fail(n+"/TypeMapOf", "did not terminate")
 		}
 	}
-	r.done("5 zoo types (recursive, mutually recursive, slices of slices, maps of pointers, custom-named) x witnesses {zero value, populated} x every other witness round-tripped with the extracted maps")
+	// named list, map and pointer types that contain themselves (no struct in between)
+	for name, typ := range map[string]reflect.Type{"nest-list": reflect.TypeOf(ZNestList{}), "nest-map": reflect.TypeOf(ZNestMap{}), "self-pointer-field": reflect.TypeOf(ZSelfPtrHolder{})} {
+		done := make(chan struct{})
+		go func() { TypeMapOf(typ); ExtractTypeNameMap(reflect.New(typ).Interface()); close(done) }()
+		select {
+		case <-done:
+			r.ok("selfref/" + name)
+		case <-time.After(30 * time.Second):
+			r.fail("selfref/"+name, "did not terminate")
+		}
+	}
+	r.done("3 named list/map/pointer types that contain themselves; 5 zoo types (recursive, mutually recursive, slices of slices, maps of pointers, custom-named) x witnesses {zero value, populated} x every other witness round-tripped with the extracted maps")
 }
 
 func TestGovcStandin(t *testing.T) {
